@@ -1,8 +1,11 @@
 from checks import concfam
 GUARDS = {"BlockConservation.dup", "BlockConservation.lost", "ListsStayInPage", "NoOverlap", "ContentsKept.gen", "ContentsKept.bytes", "ObsOfLiveBlock", "FreeOfLiveBlock", "CheckAllComplete", "MovedDisjointFromOld",
-          "Invariant.Inv", "WalkCount", "WalkEveryLiveOnce", "WalkOnlyLive"}
+          "Invariant.Inv", "WalkCount", "WalkEveryLiveOnce", "WalkOnlyLive", "DestructiveAvoidsLive", "LiveAccessible"}
 def run(tier, seed):
     jobs = [
+        {"prog": "page-huge", "strategy": "random", "runs": (40, 600), "args": ["--snap", "3", "--spurious", "1", "--rate", "3"]},
+        {"prog": "page-huge", "strategy": "pct", "runs": (30, 400), "args": ["--snap", "3"]},
+        {"prog": "page", "strategy": "random", "runs": (40, 600), "args": ["--snap", "3", "--size", "600000", "1048576", "--spurious", "1"]},
         {"prog": "page", "strategy": "random", "runs": (300, 4000), "args": ["--snap", "3", "--spurious", "2", "--rate", "3"]},
         {"prog": "page", "strategy": "pct", "runs": (200, 3000), "args": ["--snap", "3", "--spurious", "1"]},
         {"prog": "page-main", "strategy": "random", "runs": (200, 3000), "args": ["--snap", "3", "--spurious", "2"]},
